@@ -76,6 +76,17 @@ var goSrc = func() string {
 	return b.String()
 }()
 
+// goSrcRewritten: the same functions on the same lines with other parameter
+// types (what a source file looks like after an edit).
+var goSrcRewritten = strings.NewReplacer(
+	"a int, b *int, s string", "a string, b int, s *int",
+	"f float64, p []byte, e error", "f *float64, p string, e int",
+	"n uint32, m map[string]int, c chan int", "n string, m *int, c error",
+	"g float32, ok bool, i8 int8, i16 int16, args ...interface{}", "g string, ok *bool, i8 float64, i16 []int",
+	"fn func(), arr [2]int, x io.Reader, i64 int64, _ uint8", "fn string, arr *int, x int64, i64 string, _ bool",
+	"int32, uint, interface{}, struct{}, **int", "string, *int, string, bool",
+).Replace(goSrc)
+
 func genTreeEnv(r *core.Rng, dir string) (*TreeEnv, []string) {
 	ex := &TreeEnv{Dir: dir, GOROOT: dir + "/goroot"}
 	add := func(p, content string) { ex.Files = append(ex.Files, TreeFile{Path: p, Content: content}) }
